@@ -42,7 +42,11 @@ func init() {
 			js = append(js, J("socket", "VX_C05_RawSizeIndependent", 1, 2), J("socket", "VX_C05_RawSizeIndependent", 3, 0))
 			js = append(js, J("socket", "VX_C05_ReusedMessage", 1), J("socket", "VX_C20_Args", 2, -1, 3), J("proto/jsonproto", "VX_C05_JSONRetained", 1), J("socket", "VX_C05_RawRetained", 1), J("proto/thriftproto", "VX_C05_ThriftRetained", 1),
 				J("socket", "VX_C05_RawLongFields", 256, 10), J("socket", "VX_C05_RawLongFields", 10, 256), J("socket", "VX_C05_RawLongFields", 255, 255), J("socket", "VX_C05_RawLongFields", 300, 700), J("socket", "VX_C05_RawLongFields", 0, 65000),
-				J("proto/httproto", "VX_C05_HTTPGzipStream", 100), J("proto/thriftproto", "VX_C05_ThriftPipeSeq", 60))
+				J("proto/httproto", "VX_C05_HTTPGzipStream", 100), J("proto/thriftproto", "VX_C05_ThriftPipeSeq", 60),
+				J("proto/thriftproto", "VX_C05_ThriftConcurrentPack", 1, 1), J("proto/thriftproto", "VX_C05_ThriftConcurrentPack", 0, 1))
+			if tier == "thorough" {
+				js = append(js, J("proto/thriftproto", "VX_C05_ThriftConcurrentPack", 1, 2), J("proto/thriftproto", "VX_C05_ThriftConcurrentPack", 0, 2))
+			}
 			// thrift binary protocol (apache thrift THeader transport/protocol interpreted)
 			for g := 0; g <= 3; g++ {
 				js = append(js, J("proto/thriftproto", "VX_C05_ThriftBinary", g, 2))
@@ -69,7 +73,7 @@ func init() {
 		},
 		assumptions: append(append([]string{}, stdAssumptions...), "strconv Format/Parse of SYMBOLIC integers are summarised by the round-trip contract (stub S-STRCONV); concrete integers run the real strconv code"),
 		explanation: "symbolic execution of the real raw-protocol Pack/Unpack code (go/ssa rebuilt from /repo) with symbolic field contents and solver-chosen short-read positions; each vxAssert is an SMT query (unsat = holds for all values of the symbolic bytes within the shape)",
-		bounds:      "raw protocol in depth; json protocol (gjson interpreted) with one symbolic text field of <= 2 bytes per instance; websocket protobuf sub-protocol (gogo-generated code interpreted) with symbolic seq/mtype/codec/method/meta/body; websocket json sub-protocol on concrete fields (frame built with fmt.Sprintf); thrift binary protocol (apache thrift THeader code interpreted) with one symbolic field of <= 2 bytes or a symbolic seq per instance; thrift struct protocol likewise with a hand-written TStruct body, two frames back to back; http-style protocol: request + OK response with symbolic seq or body (error responses carry the status as encoding/json text: outside); pbproto not covered here; raw: method<=3 bytes, body<=4, meta<=3 pairs of <=2-byte key/value, status msg/cause<=2 bytes, seq symbolic int32 or samples incl. extremes, two frames with <=2 short reads at any offset, transfer pipes of <=3 filters; also: a reset message reused for a second frame, three frames decoded into retained messages (raw/json/thrift), status text and metadata of 255/256/300/700/65000 bytes (concrete content, one symbolic byte), thrift binary + struct protocols, http-style protocol (request + OK response; gzip-filtered OK and error responses with concrete statuses)",
+		bounds:      "raw protocol in depth; json protocol (gjson interpreted) with one symbolic text field of <= 2 bytes per instance; websocket protobuf sub-protocol (gogo-generated code interpreted) with symbolic seq/mtype/codec/method/meta/body; websocket json sub-protocol on concrete fields (frame built with fmt.Sprintf); thrift binary protocol (apache thrift THeader code interpreted) with one symbolic field of <= 2 bytes or a symbolic seq per instance; thrift struct protocol likewise with a hand-written TStruct body, two frames back to back; http-style protocol: request + OK response with symbolic seq or body (error responses carry the status as encoding/json text: outside); pbproto not covered here; raw: method<=3 bytes, body<=4, meta<=3 pairs of <=2-byte key/value, status msg/cause<=2 bytes, seq symbolic int32 or samples incl. extremes, two frames with <=2 short reads at any offset, transfer pipes of <=3 filters; also: a reset message reused for a second frame, three frames decoded into retained messages (raw/json/thrift), status text and metadata of 255/256/300/700/65000 bytes (concrete content, one symbolic byte), thrift binary + struct protocols, http-style protocol (request + OK response; gzip-filtered OK and error responses with concrete statuses); rounds 5-6: two goroutines packing through one thrift protocol instance (1 preemption quick, 2 thorough) with size and race oracles",
 	})
 	registerCheck(&checkSpec{
 		id:    "C06",
@@ -102,6 +106,7 @@ func init() {
 			js = append(js, J(".", "VX_C06_SessionFieldBytes", 3, 1), J(".", "VX_C06_SessionFieldBytes", 4, 1), J(".", "VX_C03_Frame", 9, 0, 0, 0, 0, 0, 1, 0),
 				J(".", "VX_C02_DuplicateReply", 1, 1), J(".", "VX_C02_DuplicateReply", 4, 1), J(".", "VX_C02_ReplyThenLoss", 0, 1, 0), J(".", "VX_C02_ReplyThenLoss", 0, 4, 0))
 			js = append(js, J(".", "VX_C06_SessionFieldBytes", 0, 3), J(".", "VX_C06_SessionFieldBytes", 1, 2), J(".", "VX_C06_SessionFieldBytes", 2, 2))
+			js = append(js, J(".", "VX_C06_RealIPMeta", 0, 2), J(".", "VX_C06_RealIPMeta", 1, 1), J(".", "VX_C06_RealIPMeta", 2, 1), J(".", "VX_C06_RealIPMeta", 0, 0))
 			if tier == "thorough" {
 				js = append(js, J(".", "VX_C06_SessionFieldBytes", 1, 3), J(".", "VX_C06_SessionFieldBytes", 2, 3))
 				js = append(js, J(".", "VX_C06_SessionBytes", 6, 1), J(".", "VX_C06_SessionBytes", 7, 0))
@@ -113,7 +118,7 @@ func init() {
 		},
 		assumptions: stdAssumptions,
 		explanation: "the real raw-protocol Unpack is executed on a fully symbolic byte stream (every byte a solver variable) of each listed length followed by EOF; the engine checks every make([]byte,n) reached against the configured limit (n is a solver term), termination (instruction budget = unwinding assertion), and that a well-formed frame still decodes afterwards",
-		bounds:      "raw protocol parser on streams <= 8 (quick) / 10 (thorough) bytes, limit 24; session read loop on <= 5 (quick) / 7 (thorough) arbitrary bytes and on well-framed messages with <= 3 arbitrary bytes in one field; json protocol parser on <= 6/8 bytes; http protocol: response with symbolic 7-8 digit Content-Length and <= 4-6 arbitrary bytes after the method prefix; thrift binary protocol: one oversize frame (limit 8 KiB); pb parser and arbitrary bytes into thrift not covered; also: a REPLY to a pending typed call with an arbitrary body-codec byte, an arbitrary message-type byte, two sessions decoding at overlapping times after a refused oversize frame",
+		bounds:      "raw protocol parser on streams <= 8 (quick) / 10 (thorough) bytes, limit 24; session read loop on <= 5 (quick) / 7 (thorough) arbitrary bytes and on well-framed messages with <= 3 arbitrary bytes in one field; json protocol parser on <= 6/8 bytes; http protocol: response with symbolic 7-8 digit Content-Length and <= 4-6 arbitrary bytes after the method prefix; thrift binary protocol: one oversize frame (limit 8 KiB); pb parser and arbitrary bytes into thrift not covered; also: a REPLY to a pending typed call with an arbitrary body-codec byte, an arbitrary message-type byte, two sessions decoding at overlapping times after a refused oversize frame; rounds 5-6: X-Real-IP metadata of <= 2 arbitrary printable bytes on CALL, PUSH and REPLY frames",
 	})
 	registerCheck(&checkSpec{
 		id:    "C12",
@@ -122,6 +127,7 @@ func init() {
 		jobs: func(tier string) []job {
 			js := []job{J("socket", "VX_C12_PipeInverts", 0, 2), J("socket", "VX_C12_PipeInverts", 1, 2), J("socket", "VX_C12_PipeInverts", 2, 2),
 				J("socket", "VX_C12_PipeOnWire", 1, 1), J("socket", "VX_C12_PipeOnWire", 2, 1), J("socket", "VX_C12_Unregistered"), J("socket", "VX_C12_TooLong"),
+				J("socket", "VX_C12_UnregisteredInPipe", 2, 0), J("socket", "VX_C12_UnregisteredInPipe", 2, 1), J("socket", "VX_C12_UnregisteredInPipe", 3, 0), J("socket", "VX_C12_UnregisteredInPipe", 3, 1), J("socket", "VX_C12_UnregisteredInPipe", 3, 2),
 				J("socket", "VX_C12_PipeLengthOnWire", 255, 1), J("socket", "VX_C12_PipeLengthOnWire", 254, 1), J("socket", "VX_C12_PipeLengthOnWire", 128, 2), J("socket", "VX_C12_PipeLengthOnWire", 127, 1),
 				J("xfer/gzip", "VX_C12_GzipPipe", 0, 300), J("xfer/gzip", "VX_C12_GzipPipe", 1, 300), J("xfer/gzip", "VX_C12_GzipPipe", 2, 64), J("xfer/gzip", "VX_C12_GzipPipe", 3, 300),
 				J("xfer/md5", "VX_C12_MD5Pipe", 1, 1), J("xfer/md5", "VX_C12_MD5Pipe", 2, 0), J("xfer/md5", "VX_C12_MD5Pipe", 2, 1), J("xfer/md5", "VX_C12_MD5Sequence", 2),
@@ -138,7 +144,7 @@ func init() {
 		},
 		assumptions: append(append([]string{}, stdAssumptions...), "filters are three harness-defined invertible, mutually non-commuting filters plus the shipped md5 integrity filter with crypto/md5 as an uninterpreted collision-free function (equal digests imply equal inputs; both content and checksum altered consistently is outside the claim); gzip internals outside reach"),
 		explanation: "the real xfer.XferPipe (Append/IDs/OnPack/OnUnpack/check) and the raw protocol's pipe transport are executed symbolically; pipe = solver-chosen sequence of filter ids, payload symbolic",
-		bounds:      "pipes of length <= 2 (quick) / 4 (thorough) over 3 filters with repeats, payload <= 4 bytes, 255/256 boundary concrete; also: pipes of 127/128/254/255 filters on the wire followed by a second frame; the md5 filter inside pipes of 1-2 integrity stages with the payload cut at every length; the shipped gzip filter (real compress/gzip interpreted, concrete payloads of 64-300 bytes) in pipes of up to 3 gzip stages",
+		bounds:      "pipes of length <= 2 (quick) / 4 (thorough) over 3 filters with repeats, payload <= 4 bytes, 255/256 boundary concrete; also: pipes of 127/128/254/255 filters on the wire followed by a second frame; the md5 filter inside pipes of 1-2 integrity stages with the payload cut at every length; the shipped gzip filter (real compress/gzip interpreted, concrete payloads of 64-300 bytes) in pipes of up to 3 gzip stages; rounds 5-6: one unregistered id at every position of pipes of length 1-3; md5 filter over sequences with rejected frames (pooled hasher)",
 	})
 	registerCheck(&checkSpec{
 		id:    "C20",
@@ -152,6 +158,7 @@ func init() {
 				J(".", "VX_C20_PreSessionPools", 0, 0), J(".", "VX_C20_PreSessionPools", 0, 1), J(".", "VX_C20_PreSessionPools", 1, 0), J(".", "VX_C20_PreSessionPools", 1, 1), J(".", "VX_C20_PreSessionPools", 2, 0), J(".", "VX_C20_PreSessionPools", 2, 1),
 				J("socket", "VX_C20_Socket", 2, 1), J("socket", "VX_C20_Socket", 1, 0), J("socket", "VX_C20_Socket", 2, 1, 1), J("socket", "VX_C20_Socket", 1, 0, 1),
 				J(".", "VX_C20_ContextStatus", 0, 2), J(".", "VX_C20_ContextStatus", 1, 2), J(".", "VX_C20_ContextStatus", 2, 2), J(".", "VX_C20_ContextStatus", 3, 2),
+				J(".", "VX_C20_ContextAfterEarlyFailure", 0, 0), J(".", "VX_C20_ContextAfterEarlyFailure", 1, 0), J(".", "VX_C20_ContextAfterEarlyFailure", 2, 0), J(".", "VX_C20_ContextAfterEarlyFailure", 0, 1), J(".", "VX_C20_ContextAfterEarlyFailure", 2, 1),
 			}
 			js = append(js, msgSeqJobs(tier)...)
 			if tier == "thorough" {
@@ -161,7 +168,7 @@ func init() {
 		},
 		assumptions: append(append([]string{}, stdAssumptions...), "sync.Pool hands back the most recently released object (the case the property is about); Pool's own behaviour is outside the claim"),
 		explanation: "differential symbolic execution: an object dirtied with symbolic field values is released, re-acquired from the pool and compared field by field and by its packed bytes with a freshly constructed one, before and after a solver-chosen next use",
-		bounds:      "message, utils.Args, xfer.XferPipe, utils.ByteBuffer, and handler contexts recycled between two requests of one session (first request ok / status / panic); pooled sockets not covered; dirty strings <= 2 bytes, <= 2 metadata pairs, next-use wire input <= 3 bytes; also: pooled sockets (id, swap, buffered input, use after Close), pre-session PreCall/PreSend/PreReply with failing writes, contexts recycled after failing requests, message sequences of 3 (quick) / 4 (thorough) solver-chosen kinds under LIFO pools",
+		bounds:      "message, utils.Args, xfer.XferPipe, utils.ByteBuffer, and handler contexts recycled between two requests of one session (first request ok / status / panic); pooled sockets not covered; dirty strings <= 2 bytes, <= 2 metadata pairs, next-use wire input <= 3 bytes; also: pooled sockets (id, swap, buffered input, use after Close), pre-session PreCall/PreSend/PreReply with failing writes, contexts recycled after failing requests, message sequences of 3 (quick) / 4 (thorough) solver-chosen kinds under LIFO pools; rounds 5-6: GetMessage with a panicking setting; handler context whose use ended before a header was decoded (filter rejects, silent close, type 0)",
 	})
 	registerCheck(&checkSpec{
 		id:    "C03",
@@ -191,9 +198,10 @@ func init() {
 			add(3, 0, 0, 2, 0, 0, 1, 0)
 			add(3, 1, 1, 0, 0, 0, 1, 0)
 			js = append(js, J(".", "VX_C03_TwoFrames", 1, 0), J(".", "VX_C03_TwoFrames", 1, 1))
-			for st := 0; st <= 4; st++ {
+			for st := 0; st <= 5; st++ {
 				js = append(js, J(".", "VX_C03_HookPanic", st))
 			}
+			js = append(js, J(".", "VX_C03_HookPanic", 5, 1), J(".", "VX_C03_HookPanic", 2, 1), J(".", "VX_C03_HookPanic", 3, 1))
 			js = append(js, historyJobs(tier, false)...)
 			if tier == "thorough" {
 				js = append(js, J(".", "VX_Session_History", 4, -1, 0, 1)) // with stray replies and unsupported-type frames
@@ -221,7 +229,7 @@ func init() {
 		},
 		assumptions: append(append([]string{}, stdAssumptions...), "handlers are installed through SubRouter.reg with a harness HandlersMaker (reflection-based controller extraction not executed)", "scripted in-memory net.Conn (stub S-CONN); goroutine pool = plain spawn; spawned handler runs when the reader blocks"),
 		explanation: "the real read loop, binding, routing, plugin stages, handler dispatch, reply construction and session.write are executed symbolically for one received frame with symbolic type/seq/body/plugin and handler statuses; handler outcome, vetoing stage, route kind and transport failure are enumerated shape parameters",
-		bounds:      "one frame per path; body <= 2 bytes; raw protocol; plain-bytes bodies; timeouts (context/session age) disabled; also: two frames handled concurrently, a hook of each of 5 stages panicking, reply-side hook vetoes, panics carrying a *Status, a write abandoned while queued behind a stuck reply write (context cancellation), session histories of 4 (quick) / 5 (thorough) solver-chosen events",
+		bounds:      "one frame per path; body <= 2 bytes; raw protocol; plain-bytes bodies; timeouts (context/session age) disabled; also: two frames handled concurrently, a hook of each of 5 stages panicking, reply-side hook vetoes, panics carrying a *Status, a write abandoned while queued behind a stuck reply write (context cancellation), session histories of 4 (quick) / 5 (thorough) solver-chosen events; rounds 5-6: panicking handler / hooks with a context age set",
 	})
 	c02jobs := func(tier string) []job {
 		var js []job
@@ -238,6 +246,7 @@ func init() {
 		js = append(js, J(".", "VX_C02_CloseThenLoss", 0), J(".", "VX_C02_CloseThenLoss", 1), J(".", "VX_C02_HandlerCallsBack"))
 		js = append(js, J(".", "VX_C02_FastReply", 0, 1), J(".", "VX_C02_FastReply", 1, 0), J(".", "VX_C02_FastReply", 2, 0))
 		js = append(js, J(".", "VX_C02_DuplicateReply", 1, 1), J(".", "VX_C02_DuplicateReply", 4, 1), J(".", "VX_C02_DuplicateReply", 4, 0))
+		js = append(js, J(".", "VX_C02_CallDuringClose", 0, 0), J(".", "VX_C02_CallDuringClose", 0, 1), J(".", "VX_C02_CallDuringClose", 1, 0), J(".", "VX_C02_CallDuringClose", 1, 1))
 		js = append(js, historyJobs(tier, true)...)
 		js = append(js, J(".", "VX_C02_ReplyThenLoss", 0, 1, 0), J(".", "VX_C02_ReplyThenLoss", 0, 4, 0), J(".", "VX_C02_ReplyThenLoss", 1, 1, 0), J(".", "VX_C02_ReplyThenLoss", 0, 1, 1),
 			J(".", "VX_C14_DisconnectWhileLaunching", 0, 0), J(".", "VX_C14_DisconnectWhileLaunching", 1, 1), J(".", "VX_C14_DisconnectWhileLaunching", 0, 1),
@@ -259,16 +268,16 @@ func init() {
 		id: "C02", dirs: []string{".", "proto/httproto"}, level: "other", jobs: c02jobs,
 		assumptions: append(append([]string{}, stdAssumptions...), "scripted in-memory net.Conn (stub S-CONN); the remote peer's reply is an arbitrary well-framed raw-protocol frame (symbolic seq/status/codec/body) or a truncation of one; library body codecs (json/xml/form/protobuf/thrift) excluded"),
 		explanation: "the real AsyncCall, read loop, bindReply/handleReply, readDisconnected and callCmd.done/cancel are executed symbolically with two pending calls, one hostile reply frame and connection loss; completion is observed through Done() and the completion channel; a goroutine left blocked is a violation",
-		bounds:      "2 pending calls, 1 reply frame (whole or cut at listed byte offsets), then EOF; reply body <= 2 bytes; sequential schedule (spawned handler runs when the reader blocks); also: reply processed before the transport write returns, reply and loss arriving together (incl. all schedules with 1 pre-emption), loss while a call is being launched, malformed 299 reply over the http-style protocol, session histories of 4 (quick) / 6 (thorough) solver-chosen events",
+		bounds:      "2 pending calls, 1 reply frame (whole or cut at listed byte offsets), then EOF; reply body <= 2 bytes; sequential schedule (spawned handler runs when the reader blocks); also: reply processed before the transport write returns, reply and loss arriving together (incl. all schedules with 1 pre-emption), loss while a call is being launched, malformed 299 reply over the http-style protocol, session histories of 4 (quick) / 6 (thorough) solver-chosen events; rounds 5-6: a call or push issued while Close waits for a pending call, on accepted-style and on dialled redial-enabled sessions",
 	})
 	rootAssume := append(append([]string{}, stdAssumptions...), "scripted in-memory net.Conn (stub S-CONN); goroutine pool = plain spawn; handlers installed through SubRouter.reg with a harness HandlersMaker", "schedules: deterministic run-to-block order plus the interleavings scripted by the harness (handler blocked / Close in progress / reader at EOF); not all interleavings")
 	registerCheck(&checkSpec{
 		id: "C08", dirs: []string{"."}, level: "other",
 		jobs: func(tier string) []job {
 			js := []job{J(".", "VX_C08_GracefulClose", 0, 1), J(".", "VX_C08_GracefulClose", 1, 1), J(".", "VX_C08_GracefulClose", 2, 1), J(".", "VX_C02_CloseThenLoss", 1), J(".", "VX_C02_CloseThenLoss", 0),
-				J(".", "VX_C08_CloseTwoPending", 0), J(".", "VX_C08_CloseTwoPending", 1),
+				J(".", "VX_C08_CloseTwoPending", 0), J(".", "VX_C08_CloseTwoPending", 1), J(".", "VX_C02_CallDuringClose", 1, 0), J(".", "VX_C02_CallDuringClose", 0, 1),
 				J(".", "VX_C08_CloseHandlerNeedsTraffic", 0), J(".", "VX_C08_CloseHandlerNeedsTraffic", 1), J(".", "VX_C07_CloseWaitsThenLoss", 0),
-				J(".", "VX_C08_OverlappingClose", 0), J(".", "VX_C08_OverlappingClose", 1), J(".", "VX_C08_OverlappingClose", 2)}
+				J(".", "VX_C08_OverlappingClose", 0), J(".", "VX_C08_OverlappingClose", 1), J(".", "VX_C08_OverlappingClose", 2), J(".", "VX_C08_PeerCloseAfterRedial", 0), J(".", "VX_C08_PeerCloseAfterRedial", 1)}
 			js = append(js, historyJobs(tier, true)...)
 			// the parked handler ends with an error status / a panic
 			js = append(js, J(".", "VX_Session_History", 3, -1, 1), J(".", "VX_Session_History", 3, -1, 2))
@@ -282,7 +291,7 @@ func init() {
 		},
 		assumptions: rootAssume,
 		explanation: "the real Close/closeLocked, wait groups, read loop, readDisconnected, handleCall/writeReply and session.write are executed with a handler that is entered and blocked, a local Close in progress and (variant) the reader reaching EOF meanwhile; the order of the reply write and the socket close is observed on the scripted connection",
-		bounds:      "1 in-flight handler, 1 outstanding call, scripted interleavings (3 variants); handler durations finite; also: two outstanding calls answered one by one during Close, a handler that pushes or awaits a nested reply during Close, overlapping Close calls (session/session, peer/session), Close waiting while the connection is lost, session histories of 4 (quick) / 6 (thorough) events",
+		bounds:      "1 in-flight handler, 1 outstanding call, scripted interleavings (3 variants); handler durations finite; also: two outstanding calls answered one by one during Close, a handler that pushes or awaits a nested reply during Close, overlapping Close calls (session/session, peer/session), Close waiting while the connection is lost, session histories of 4 (quick) / 6 (thorough) events; rounds 5-6: Peer.Close with a running handler on a redialled session (default and custom id)",
 	})
 	registerCheck(&checkSpec{
 		id: "C01", dirs: []string{"socket", "."}, level: "other",
@@ -296,6 +305,7 @@ func init() {
 				J(".", "VX_C01_MetaAcrossRequests", 0, 1), J(".", "VX_C01_MetaAcrossRequests", 1, 1), J(".", "VX_C01_MetaAcrossRequests", 0, 1, 1), J(".", "VX_C01_MetaAcrossRequests", 1, 2, 1), J(".", "VX_C10_RealRoutes", 1),
 				J(".", "VX_C01_CtrlOverlap", 1, 1), J(".", "VX_C01_CtrlOverlap", 0, 1),
 				J(".", "VX_C01_TwoSessionsSameSeq", 0, 1), J(".", "VX_C01_TwoSessionsSameSeq", 1, 1), J(".", "VX_C01_SeqAcrossRedial", 2), J(".", "VX_C01_SeqAcrossRedial", 3),
+				J("socket", "VX_C01_OverlappingPacks", 0, 1), J("socket", "VX_C01_OverlappingPacks", 1, 1), J("socket", "VX_C01_OverlappingPacks", 2, 0), J("socket", "VX_C01_OverlappingPacks", 3, 1), J("socket", "VX_C01_OverlappingPacks", 4, 1),
 			}
 			js = append(js, msgSeqJobs(tier)...)
 			if tier == "thorough" {
@@ -305,12 +315,12 @@ func init() {
 		},
 		assumptions: rootAssume,
 		explanation: "non-interference decomposed: (a) reply correlation by sequence number with two pending calls and a symbolic reply (real bindReply/handleReply), (b) a received body is not aliased to the pooled receive buffer of later frames (real raw Unpack, pooled buffers reused), (c) the handler sees exactly the frame's body and the reply carries the handler's result (real handle/handleCall), (d) recycled messages carry nothing over",
-		bounds:      "2 pending calls, 2 frames, body <= 3 bytes; concurrency of writers and sequence allocation not yet covered (sequential schedules); also: requests over recycled contexts on the same / another session (CALL and PUSH), overlapping invocations of one struct controller built by the real RouteCall, two sessions with equal pending sequence numbers, message sequences of 3/4 solver-chosen kinds",
+		bounds:      "2 pending calls, 2 frames, body <= 3 bytes; concurrency of writers and sequence allocation not yet covered (sequential schedules); also: requests over recycled contexts on the same / another session (CALL and PUSH), overlapping invocations of one struct controller built by the real RouteCall, two sessions with equal pending sequence numbers, message sequences of 3/4 solver-chosen kinds; rounds 5-6: two raw-protocol packs overlapping in time on two connections after each kind of failed pack (LIFO buffer pool); sequence numbers across a redial",
 	})
 	registerCheck(&checkSpec{
 		id: "C04", dirs: []string{"socket", ".", "proto/jsonproto", "proto/thriftproto", "proto/httproto", "mixer/websocket/pbSubProto", "mixer/websocket/jsonSubProto"}, level: "other",
 		jobs: func(tier string) []job {
-			js := []job{J("socket", "VX_C04_ResetLeavesSharedStatus", 1)}
+			js := []job{J("socket", "VX_C04_ResetLeavesSharedStatus", 1), J(".", "VX_C04_VetoOrder", 2, 0, 0), J(".", "VX_C04_VetoOrder", 0, 1, 0), J(".", "VX_C04_VetoOrder", 1, 0, 1), J(".", "VX_C04_VetoOrder", 2, 1, 1)}
 			js = append(js, c02jobs("quick")[:8]...)
 			for _, oc := range []int{0, 1, 2, 3, 4} {
 				js = append(js, J(".", "VX_C03_Frame", 1, 0, 0, oc, 0, 0, 1, 0))
@@ -331,7 +341,7 @@ func init() {
 		},
 		assumptions: rootAssume,
 		explanation: "three links on real code: server side (status of the reply as a function of handler outcome / framework rule), raw wire (status round trip, shared with C05), client side (callCmd status from the reply's status and the decode result); statuses symbolic",
-		bounds:      "wire link over raw, json, thrift-binary (incl. four replies in sequence on one connection) and the two websocket sub-protocols; server/client links over raw; library body codecs excluded (decode failure is produced by an unregistered codec id or the nil codec); also: the http-style protocol with gzip, long statuses on the raw wire, panics carrying a *Status, reply-side vetoes, message sequences of 3/4 kinds",
+		bounds:      "wire link over raw, json, thrift-binary (incl. four replies in sequence on one connection) and the two websocket sub-protocols; server/client links over raw; library body codecs excluded (decode failure is produced by an unregistered codec id or the nil codec); also: the http-style protocol with gzip, long statuses on the raw wire, panics carrying a *Status, reply-side vetoes, message sequences of 3/4 kinds; rounds 5-6: two plugins on one pre-handler hook, the first vetoing (global+global and global+route-level)",
 	})
 	c19jobs := func(tier string) []job {
 		var js []job
@@ -343,7 +353,7 @@ func init() {
 			js = append(js, J("plugin/proxy", "VX_C19_ProxyPush", a...))
 		}
 		js = append(js, J("plugin/proxy", "VX_C19_Sequence", 3))
-		js = append(js, J("plugin/proxy", "VX_C19_BackendLoss", 0, 0), J("plugin/proxy", "VX_C19_BackendLoss", 1, 0), J("plugin/proxy", "VX_C19_BackendLoss", 0, 1), J("plugin/proxy", "VX_C19_BackendLoss", 1, 1))
+		js = append(js, J("plugin/proxy", "VX_C19_RealIPAfterSetID", 0, 0), J("plugin/proxy", "VX_C19_RealIPAfterSetID", 1, 0), J("plugin/proxy", "VX_C19_RealIPAfterSetID", 0, 1), J("plugin/proxy", "VX_C19_BackendLoss", 0, 0), J("plugin/proxy", "VX_C19_BackendLoss", 1, 0), J("plugin/proxy", "VX_C19_BackendLoss", 0, 1), J("plugin/proxy", "VX_C19_BackendLoss", 1, 1))
 		if tier == "thorough" {
 			js = append(js, J("plugin/proxy", "VX_C19_Sequence", 4))
 			js = append(js, J("plugin/proxy", "VX_C19_ProxyCall", 0, 0, 3, 1, 1), J("plugin/proxy", "VX_C19_ProxyCall", 1, 1, 2, 1, 1), J("plugin/proxy", "VX_C19_ProxyPush", 0, 0, 3))
@@ -354,7 +364,7 @@ func init() {
 		id: "C19", dirs: []string{"plugin/proxy"}, level: "other", jobs: c19jobs,
 		assumptions: append(append([]string{}, rootAssume...), "the backend is played at wire level by the harness on a scripted connection of a real client session (the forwarder is a real erpc.Session)"),
 		explanation: "real proxy.call/push, PostNewPeer, unknown-handler binding, handleCall, and a real forwarding session are executed; the forwarded frame and the reply to the caller are parsed from the scripted connections and compared with the request / the backend's reply (symbolic body, status code, metadata values)",
-		bounds:      "body <= 3 bytes, one extra metadata pair each way, status code any int32, backend OK / error / closed; also: reply bodies shorter/longer than the request incl. empty, sequences of 3 (quick) / 4 (thorough) proxied calls with solver-chosen backend outcomes",
+		bounds:      "body <= 3 bytes, one extra metadata pair each way, status code any int32, backend OK / error / closed; also: reply bodies shorter/longer than the request incl. empty, sequences of 3 (quick) / 4 (thorough) proxied calls with solver-chosen backend outcomes; rounds 5-6: forwarder = dialled redial-enabled session losing its connection before/after the forwarded call; caller session with an application id",
 	})
 	registerCheck(&checkSpec{
 		id: "C15", dirs: []string{".", "plugin/proxy", "proto/httproto"}, level: "other",
@@ -366,6 +376,10 @@ func init() {
 			js = append(js, c19jobs("quick")...)
 			js = append(js, msgSeqJobs(tier)...)
 			js = append(js, J(".", "VX_C15_WriteFailedCauses", 0), J(".", "VX_C15_WriteFailedCauses", 1), J("proto/httproto", "VX_C15_HTTPStrayReply", 0))
+			for k := 0; k < 10; k++ {
+				js = append(js, J(".", "VX_C15_Constructors", k, 0))
+			}
+			js = append(js, J(".", "VX_C15_Constructors", 0, 1), J(".", "VX_C15_Constructors", 1, 2))
 			if tier == "thorough" {
 				js = append(js, c02jobs("thorough")...)
 			}
@@ -373,7 +387,7 @@ func init() {
 		},
 		assumptions: rootAssume,
 		explanation: "every predefined status is snapshotted before and compared after the operation in each harness of the failure paths (connection loss with and without read error, cancelled calls, 404/400/500/405 replies, write failures, proxy failures): any in-place change of a shared status is an assertion failure",
-		bounds:      "one failing operation per path from the post-initialisation state; user plugins excluded; also: framework replies whose write fails and is retried, Write-Failed causes of different context failures in sequence, message sequences of 3/4 kinds",
+		bounds:      "one failing operation per path from the post-initialisation state; user plugins excluded; also: framework replies whose write fails and is retried, Write-Failed causes of different context failures in sequence, message sequences of 3/4 kinds; rounds 5-6: NewStatusByCodeText for the ten framework codes (nil cause / cause / stack tag) customised by the caller; stray and duplicate 299 replies over the http protocol",
 	})
 	registerCheck(&checkSpec{
 		id: "C07", dirs: []string{"."}, level: "other",
@@ -409,6 +423,8 @@ func init() {
 			add(2, 0, 1, 1, 1, 0, 0, 1)
 			add(1, 1, 0, 0, 1, 1, 1, 1)
 			js = append(js, J(".", "VX_C09_ClientHooks", 0, 0), J(".", "VX_C09_ClientHooks", 0, 1), J(".", "VX_C09_ClientHooks", 1, 0), J(".", "VX_C09_ClientHooks", 1, 1))
+			js = append(js, J(".", "VX_C09_SiblingGroups", 0, 1), J(".", "VX_C09_SiblingGroups", 1, 1), J(".", "VX_C09_SiblingGroups", 2, 1), J(".", "VX_C09_SiblingGroups", 3, 1), J(".", "VX_C09_SiblingGroups", 4, 1), J(".", "VX_C09_SiblingGroups", 1, 2), J(".", "VX_C09_SiblingGroups", 2, 2), J(".", "VX_C09_SiblingGroups", 1, 3),
+				J(".", "VX_C04_VetoOrder", 2, 0, 0), J(".", "VX_C04_VetoOrder", 0, 1, 0), J(".", "VX_C04_VetoOrder", 1, 0, 1))
 			js = append(js, J(".", "VX_C09_RedialRetry", 0), J(".", "VX_C09_RedialRetry", 1), J(".", "VX_C09_ReplyDuringPostWrite"),
 				J(".", "VX_C03_Frame", 1, 0, 0, 3, 0, 0, 1, 0), J(".", "VX_C03_Frame", 1, 0, 0, 2, 0, 0, 1, 0), J(".", "VX_C03_Frame", 1, 0, 0, 0, 0, 2, 1, 0), J(".", "VX_C03_Frame", 1, 0, 0, 0, 0, 0, 1, 1))
 			// veto statuses through the general frame harness (incl. code 405)
@@ -433,7 +449,7 @@ func init() {
 		},
 		assumptions: rootAssume,
 		explanation: "plugin containers are built by the real AppendLeft/AppendRight/SubRoute/reg/cloneAndAppendMiddle/refresh code (slice growth modelled exactly as runtime.growslice, so aliasing of backing arrays is reproduced); one CALL to one of two sibling routes with a solver-chosen vetoing (plugin, stage) and symbolic veto status; the recorded hook trace must be a subsequence of the documented order restricted to global + matched chain",
-		bounds:      "<= 2 global-left, <= 1 global-right (+1 appended late), group depth <= 2, 2 sibling routes with handler-level plugins; hooks that do not fire are not demanded (upper bound only); also: message retried after a redial, reply readable during the post-write hooks, hooks at most once per stage on the fallback-reply path",
+		bounds:      "<= 2 global-left, <= 1 global-right (+1 appended late), group depth <= 2, 2 sibling routes with handler-level plugins; hooks that do not fire are not demanded (upper bound only); also: message retried after a redial, reply readable during the post-write hooks, hooks at most once per stage on the fallback-reply path; rounds 5-6: chains of nested groups (depth 0-4, 1-3 plugins per level) ending in two sibling groups",
 	})
 	registerCheck(&checkSpec{
 		id: "C10", dirs: []string{"."}, level: "other",
@@ -445,7 +461,7 @@ func init() {
 			for m := 0; m <= 3; m++ {
 				js = append(js, J(".", "VX_C10_Conflict", m))
 			}
-			js = append(js, J(".", "VX_C10_RealRoutes", 1), J(".", "VX_C10_SubRoutePush", 0), J(".", "VX_C10_SubRoutePush", 1), J(".", "VX_C10_UnknownAfterSession"))
+			js = append(js, J(".", "VX_C10_RealRoutes", 1), J(".", "VX_C10_SubRoutePush", 0), J(".", "VX_C10_SubRoutePush", 1), J(".", "VX_C10_UnknownAfterSession"), J(".", "VX_C10_NestedGroups", 1), J(".", "VX_C09_SiblingGroups", 3, 1), J(".", "VX_C09_SiblingGroups", 1, 2))
 			if tier == "thorough" {
 				js = append(js, J(".", "VX_C10_MapperSymbolic", 4, 1), J(".", "VX_C10_MapperSymbolic", 5, 0), J(".", "VX_C10_MapperSymbolic", 6, 2))
 			}
@@ -453,7 +469,7 @@ func init() {
 		},
 		assumptions: append(append([]string{}, rootAssume...), "identifiers are ASCII [A-Za-z0-9_]; reflection-based extraction of methods from controller structs (makeCallHandlersFromStruct etc.) is not executed: registration is checked from SubRouter.reg downward", "erpc.Fatalf ends the path (it exits the process)"),
 		explanation: "the real mappers (toServiceMethods, goutil.SnakeString, strings.Replace/ToLower/Trim, path.Join) are executed on symbolic identifiers; the real reg/getCall/getPush/bindCall/bindPush with symbolic requested names (map lookup forks on byte-wise equality with the registered keys); conflicts must reach Fatalf",
-		bounds:      "identifiers <= 3 (quick) / 6 (thorough) bytes, 3 registrations, requested name length within +-1 of a registered name; also: one struct controller (3 methods), one function handler and one push controller through the real reflection builders; push registration under an early sub-router; unknown-handler (re)installed after a session exists",
+		bounds:      "identifiers <= 3 (quick) / 6 (thorough) bytes, 3 registrations, requested name length within +-1 of a registered name; also: one struct controller (3 methods), one function handler and one push controller through the real reflection builders; push registration under an early sub-router; unknown-handler (re)installed after a session exists; rounds 5-6: nested groups two levels deep with sibling groups sharing the inner prefix",
 	})
 	registerCheck(&checkSpec{
 		id: "C16", dirs: []string{"plugin/auth", "."}, level: "other",
@@ -475,6 +491,9 @@ func init() {
 			add(2, 0, 1, 0, 0, 1)
 			add(4, 0, 0, 1, 0, 1)
 			add(3, 4, 0, 1, 0, 1)
+			add(0, 0, 1, 1, 0, 0, 1) // a verifier that panics on what it rejects
+			add(1, 0, 1, 0, 0, 0, 1)
+			add(4, 0, 0, 1, 0, 0, 1)
 			for _, n := range []int{1, 3, 4, 5, 6} {
 				add(3, n, 0, 1)
 			}
@@ -488,7 +507,7 @@ func init() {
 		},
 		assumptions: append(append([]string{}, rootAssume...), "canonical checker (calls RecvOnce once, compares a one-byte token); handlers are the unknown-call/unknown-push handlers (no reflection-based routes)"),
 		explanation: "the real ServeConn, newSession, postAccept, auth checker PostAccept, PreReceive/PreSend and raw Unpack are executed on a scripted connection whose first bytes are an AUTH_CALL with symbolic token, a CALL, a frame of symbolic type, an arbitrary symbolic byte string or nothing, optionally followed by pipelined CALL/PUSH frames; handler and per-message hook counters must stay zero unless authentication succeeded",
-		bounds:      "first frame / <= 6 (quick) 8 (thorough) arbitrary bytes (message size limit 24 for that case), 2 pipelined frames, one other accept plugin before or after the checker; also: a verifier that names the session (SetID) before deciding, a verifier that receives again after a failed receive",
+		bounds:      "first frame / <= 6 (quick) 8 (thorough) arbitrary bytes (message size limit 24 for that case), 2 pipelined frames, one other accept plugin before or after the checker; also: a verifier that names the session (SetID) before deciding, a verifier that receives again after a failed receive; rounds 5-6: the real accept loop with 2-3 queued connections; a verifier that panics on what it rejects",
 	})
 	registerCheck(&checkSpec{
 		id: "C18", dirs: []string{"plugin/overloader"}, level: "other",
@@ -498,7 +517,7 @@ func init() {
 				J("plugin/overloader", "VX_C18_QPS", 2, 3), J("plugin/overloader", "VX_C18_QPS", 1, 1), J("plugin/overloader", "VX_C18_QPSSession", 1, 3, 0), J("plugin/overloader", "VX_C18_QPSSession", 2, 3, 1), J("plugin/overloader", "VX_C18_QPSRace", 1, 1, 1, 2), J("plugin/overloader", "VX_C18_QPSRace", 2, 2, 3, 2),
 				J("plugin/overloader", "VX_C18_QPSInvariant", 4), J("plugin/overloader", "VX_C18_SlotAfterCloseAndLoss", 1), J("plugin/overloader", "VX_C18_SlotAfterCloseAndLoss", 2),
 				J("plugin/overloader", "VX_C18_QPSSession", 1, 3, 0, 1), J("plugin/overloader", "VX_C18_QPSSession", 2, 3, 1, 1),
-				J("plugin/overloader", "VX_C18_HandlerQPS", 1, 3, 0), J("plugin/overloader", "VX_C18_HandlerQPS", 2, 3, 2), J("plugin/overloader", "VX_C18_UpdateLimits", 2, 1), J("plugin/overloader", "VX_C18_UpdateLimits", 3, 1)}
+				J("plugin/overloader", "VX_C18_HandlerQPS", 1, 3, 0), J("plugin/overloader", "VX_C18_HandlerQPS", 2, 3, 2), J("plugin/overloader", "VX_C18_HandlerQPS", 1, 3, 0, 1), J("plugin/overloader", "VX_C18_HandlerQPS", 2, 3, 2, 1), J("plugin/overloader", "VX_C18_UpdateLimits", 2, 1), J("plugin/overloader", "VX_C18_UpdateLimits", 3, 1)}
 			if tier == "thorough" {
 				js = append(js, J("plugin/overloader", "VX_C18_QPSInvariant", 7), J("plugin/overloader", "VX_C18_ConnHistory", 2, 5, 1), J("plugin/overloader", "VX_C18_ConnHistory", 1, 5, 1), J("plugin/overloader", "VX_C18_QPSRace", 3, 3, 4, 2))
 			}
@@ -506,7 +525,7 @@ func init() {
 		},
 		assumptions: append(append([]string{}, rootAssume...), "time.Ticker never fires by itself: refill ticks are explicit calls of updateToken", "concurrency harnesses explore all schedules with <= 2 pre-emptions at sync/atomic operations (sequentially consistent)"),
 		explanation: "connection limit: solver-chosen histories of accepted/rejected/closed connections through the real ServeConn + overloader hooks; races: two concurrent PostAccept for the last slot and k concurrent take() against one refill tick explored over all schedules with <= 2 pre-emptions (schedule choices are decisions of the symbolic execution); rate limit: sequential take/refill arithmetic",
-		bounds:      "N <= 2, histories <= 4 (quick) / 5, 2 racing accepts, <= 5 takers + 1 tick, <= 2 pre-emptions; also: rate limit through a session with another header plugin after the overloader, inductive bucket step (limit <= 1000, 4 interval choices, 4/7 solver-chosen take/tick steps), per-handler limits, run-time lowering of the connection limit, slot accounting after Close+loss",
+		bounds:      "N <= 2, histories <= 4 (quick) / 5, 2 racing accepts, <= 5 takers + 1 tick, <= 2 pre-emptions; also: rate limit through a session with another header plugin after the overloader, inductive bucket step (limit <= 1000, 4 interval choices, 4/7 solver-chosen take/tick steps), per-handler limits, run-time lowering of the connection limit, slot accounting after Close+loss; rounds 5-6: per-handler limits for pushes",
 	})
 	registerCheck(&checkSpec{
 		id: "C13", dirs: []string{"."}, level: "other",
@@ -521,7 +540,7 @@ func init() {
 		},
 		assumptions: append(append([]string{}, rootAssume...), "dial hook (overlay H-dial): one line inserted at the top of Dialer.dialOne of the current /repo/dialer.go consults a harness hook; each dial attempt's outcome and each redial hook verdict is a solver variable; redial intervals (time.Sleep) are no-ops; unlimited budget capped at 8 attempts"),
 		explanation: "the real peer.Dial (redial closure), redialForClient, dialWithRetry, redialCounter, readDisconnected, write and AsyncCall retry loops are executed; connection loss while a call is in flight; every dial attempt outcome and hook verdict symbolic (forked); no-hang is a scheduler-level check (a blocked goroutine with no runnable one is a violation)",
-		bounds:      "redial budget 1, 2 (and unlimited capped at 8 attempts in thorough); one loss, one later call; sequential schedules; also: unlimited budget explored up to 8 attempts, loss while a call is inside its pre/post-write hook, two or three outages each using the whole budget",
+		bounds:      "redial budget 1, 2 (and unlimited capped at 8 attempts in thorough); one loss, one later call; sequential schedules; also: unlimited budget explored up to 8 attempts, loss while a call is inside its pre/post-write hook, two or three outages each using the whole budget; rounds 5-6: a call after the redial budget is exhausted must return (a retry loop that never ends is reported as a hang when the native run does not finish)",
 	})
 	registerCheck(&checkSpec{
 		id: "C17", dirs: []string{"plugin/secure", "."}, level: "other",
@@ -538,7 +557,8 @@ func init() {
 				J("plugin/secure", "VX_C17_Call", 1, 0, 0, 1, 1), J("plugin/secure", "VX_C17_Call", 0, 1, 0, 1, 1), J("plugin/secure", "VX_C17_Call", 0, 1, 0, 1, 0), J("plugin/secure", "VX_C17_Call", 1, 1, 1, 1, 1),
 				J("plugin/secure", "VX_C17_Call", 1, 0, 1, 1, 0, 1), J("plugin/secure", "VX_C17_Call", 0, 1, 1, 1, 0, 1), J("plugin/secure", "VX_C17_Call", 1, 1, 1, 1, 1, 1),
 				J("plugin/secure", "VX_C17_Push", 1, 0, 1, 1), J("plugin/secure", "VX_C17_Push", 1, 1, 1, 1),
-				J("plugin/secure", "VX_C17_Sequence", 1, 1, 1), J("plugin/secure", "VX_C17_Sequence", 0, 1, 1), J("plugin/secure", "VX_C17_Sequence", 1, 0, 1), J("plugin/secure", "VX_C17_Sequence", 0, 0, 1), J("plugin/secure", "VX_C17_TypedArgMismatch", 0), J("plugin/secure", "VX_C17_TypedArgMismatch", 1))
+				J("plugin/secure", "VX_C17_Sequence", 1, 1, 1), J("plugin/secure", "VX_C17_Sequence", 0, 1, 1), J("plugin/secure", "VX_C17_Sequence", 1, 0, 1), J("plugin/secure", "VX_C17_Sequence", 0, 0, 1), J("plugin/secure", "VX_C17_TypedArgMismatch", 0), J("plugin/secure", "VX_C17_TypedArgMismatch", 1),
+				J("plugin/secure", "VX_C17_RouteLevel", 0, 1, 1), J("plugin/secure", "VX_C17_RouteLevel", 1, 1, 1), J("plugin/secure", "VX_C17_RouteLevel", 2, 1, 0), J("plugin/secure", "VX_C17_RouteLevel", 0, 0, 1))
 			if tier == "thorough" {
 				js = append(js, J("plugin/secure", "VX_C17_Call", 1, 0, 1, 3), J("plugin/secure", "VX_C17_Call", 1, 1, 0, 3), J("plugin/secure", "VX_C17_Push", 1, 1, 3), J("plugin/secure", "VX_C17_PushRedial", 0, 3))
 			}
@@ -546,7 +566,7 @@ func init() {
 		},
 		assumptions: append(append([]string{}, rootAssume...), "stub S-AES: goutil.AESEncrypt yields fresh ciphertext symbols (hex alphabet) unrelated to the plaintext; AESDecrypt of exactly those symbols with the same key returns the plaintext, with another key an error; 'not in clear on the wire' is structural (no byte of the written frame depends on a plaintext symbol)", "stub S-HASH: MD5 of the (concrete) key computed natively", "envelope marshalled by the gogo-generated Encrypt.Marshal/Unmarshal (interpreted) through the protobuf body codec; arguments/results are raw byte slices"),
 		explanation: "the nine hooks of the secure plugin and the surrounding real AsyncCall/Push/bindCall/handleCall/bindReply/handleReply plumbing are executed on two peers whose frames the harness carries between scripted connections; marker matrix (secure x accept-secure), same/different key, push during redial",
-		bounds:      "bodies <= 3 bytes; one call/push per path; AES and MD5 internals outside the claim; also: another plugin registered after the secure plugin, wrong key in the reply direction, handler reporting success with an explicit OK status, secure call followed by an unmarked call with/without session swap data",
+		bounds:      "bodies <= 3 bytes; one call/push per path; AES and MD5 internals outside the claim; also: another plugin registered after the secure plugin, wrong key in the reply direction, handler reporting success with an explicit OK status, secure call followed by an unmarked call with/without session swap data; rounds 5-6: secure plugin on a route group next to sibling groups (three creation orders); typed handler argument that does not fit the decrypted body",
 	})
 	registerCheck(&checkSpec{
 		id: "C11", dirs: []string{"codec"}, level: "other",
@@ -569,7 +589,8 @@ func init() {
 				J("codec", "VX_C11_FormGarbage", 1, 1), J("codec", "VX_C11_FormGarbage", 1, 2), J("codec", "VX_C11_FormGarbage", 1, 3), J("codec", "VX_C11_FormGarbage", 0, 2), J("codec", "VX_C11_FormGarbage", 0, 3),
 				J("codec", "VX_C11_ThriftRoundTrip", 2), J("codec", "VX_C11_ThriftGarbage", 4), J("codec", "VX_C11_ThriftGarbage", 6),
 				J("codec", "VX_C11_PlainWindow", 4, 6, 0), J("codec", "VX_C11_PlainWindow", 4, 3, 0), J("codec", "VX_C11_PlainWindow", 0, 2, 0), J("codec", "VX_C11_PlainWindow", 4, 6, 1),
-				J("codec", "VX_C11_EncodingsIndependent", 0, 1), J("codec", "VX_C11_EncodingsIndependent", 1, 1), J("codec", "VX_C11_EncodingsIndependent", 2, 1))
+				J("codec", "VX_C11_EncodingsIndependent", 0, 1), J("codec", "VX_C11_EncodingsIndependent", 1, 1), J("codec", "VX_C11_EncodingsIndependent", 2, 1),
+				J("codec", "VX_C11_JSONGeneric", 0, 0), J("codec", "VX_C11_JSONGeneric", 1, 0), J("codec", "VX_C11_JSONGeneric", 2, 0), J("codec", "VX_C11_JSONGeneric", 3, 0), J("codec", "VX_C11_JSONGeneric", 0, 1), J("codec", "VX_C11_JSONGeneric", 1, 1))
 			if tier == "thorough" {
 				js = append(js, J("codec", "VX_C11_PlainGarbage", 5, 4), J("codec", "VX_C11_PlainGarbage", 0, 4), J("codec", "VX_C11_FormGarbage", 0, 4), J("codec", "VX_C11_FormRoundTrip", 0, 2, 0))
 			}
@@ -577,7 +598,7 @@ func init() {
 		},
 		assumptions: append(append([]string{}, stdAssumptions...), "reflect is the engine's model (types from go/types; addressable values; the subset used by the plain and form codecs)", "json, xml and protobuf codecs are three-line delegations to reflection/table-driven library encoders and are outside the claim; the thrift codec is executed (apache thrift TBinaryProtocol interpreted) on a hand-written TStruct (string + i32); floats excluded"),
 		explanation: "the real PlainCodec and FormCodec (formatProperType/parseProperType, setStructToForm/mapFormToStruct/setWithProperType, url.Values.Encode/url.ParseQuery interpreted) are executed on symbolic values and on arbitrary symbolic input bytes; round trip incl. element order, no panic leaving the codec, and independence of the decoded value from the input buffer are SMT-checked assertions",
-		bounds:      "plain: string/named string/[]byte/named bytes (<= 1-3 bytes), bool, int8/32/64, uint8/64; form: struct with string/int8/bool/[]string(<=3)/[2]string/nested struct, one symbolic field group per instance; arbitrary input <= 3 (quick) / 4 bytes; also: thrift codec on a hand-written TStruct (string + i32), encodings unaffected by later encodings (plain/form/thrift), byte-slice destinations that are windows of larger buffers",
+		bounds:      "plain: string/named string/[]byte/named bytes (<= 1-3 bytes), bool, int8/32/64, uint8/64; form: struct with string/int8/bool/[]string(<=3)/[2]string/nested struct, one symbolic field group per instance; arbitrary input <= 3 (quick) / 4 bytes; also: thrift codec on a hand-written TStruct (string + i32), encodings unaffected by later encodings (plain/form/thrift), byte-slice destinations that are windows of larger buffers; rounds 5-6: JSON codec on four generic documents (objects, arrays, nesting, with and without numbers) into *interface{} and *map/*[]interface{} through the host-JSON bridge (S-JSON-G)",
 	})
 	registerCheck(&checkSpec{
 		id: "C14", dirs: []string{"."}, level: "other",
@@ -586,7 +607,7 @@ func init() {
 			for sc := 0; sc <= 6; sc++ {
 				js = append(js, J(".", "VX_C14_Races", sc, 0))
 			}
-			js = append(js, J(".", "VX_C14_Races", 0, 1), J(".", "VX_C14_Races", 4, 1))
+			js = append(js, J(".", "VX_C14_Races", 0, 1), J(".", "VX_C14_Races", 4, 1), J(".", "VX_C14_Races", 14, 0))
 			js = append(js, J(".", "VX_C14_DisconnectWhileLaunching", 0), J(".", "VX_C14_DisconnectWhileLaunching", 1), J(".", "VX_C14_DisconnectWhileLaunching", 0, 1))
 			js = append(js, J(".", "VX_C14_Races", 7, 0), J(".", "VX_C14_Races", 8, 0), J(".", "VX_C14_Races", 7, 1), J(".", "VX_C14_Races", 8, 1), J(".", "VX_C14_Races", 9, 0), J(".", "VX_C14_Races", 10, 0), J(".", "VX_C14_Races", 11, 0), J(".", "VX_C14_Races", 12, 0), J(".", "VX_C14_Races", 13, 0))
 			if tier == "thorough" {
@@ -598,7 +619,7 @@ func init() {
 		},
 		assumptions: append(append([]string{}, rootAssume...), "race = two conflicting plain accesses (or a plain and an atomic access) to the same memory cell or Go map, not ordered by happens-before built from: mutex/rwmutex unlock->lock, atomic operations per cell, channel send->receive and close->receive, WaitGroup Done->Wait, goroutine start, sync.Map/goutil.Map and sync.Pool operations; accesses made by harness code are not reported", "races inside stubbed libraries (thrift, websocket, net/http) and in the thrift protocol's byte counters are outside the claim"),
 		explanation: "documented-concurrent operations (swap access, id change vs lookup/enumeration, concurrent calls with reply delivery, push vs reply write vs close, age setters/getters, double close, call vs remote close) run in separate interpreted goroutines of the real code with a vector-clock happens-before race detector over every interpreted load/store/map access; detection is per execution and schedule-independent for the executed paths; selected scenarios additionally explored over schedules with one pre-emption",
-		bounds:      "7 scenarios of 2-3 goroutines plus a call being launched (inside its pre-write hook) while the reader handles the loss of the connection; run-to-block schedule (+ all schedules with 1 pre-emption for listed scenarios); sequentially consistent execution; also: two concurrent id changes, re-asserting the current id vs changing it, two enumerations at once, loss while a call is inside its post-write hook",
+		bounds:      "7 scenarios of 2-3 goroutines plus a call being launched (inside its pre-write hook) while the reader handles the loss of the connection; run-to-block schedule (+ all schedules with 1 pre-emption for listed scenarios); sequentially consistent execution; also: two concurrent id changes, re-asserting the current id vs changing it, two enumerations at once, loss while a call is inside its post-write hook; rounds 5-6: reply metadata read while later replies arrive; raw pushes from two goroutines after a failed pre-session call",
 	})
 }
 
